@@ -279,3 +279,26 @@ def run(ctx):
         if msg:
             ctx.violation("p-like name: " + msg, {"kind": "plike", "text": text, "vals": vals})
     common.loads_corr(ctx, texts, "LOADS(decl)")
+    # integer scalars are exact whatever their size (only arithmetic beyond int64 is outside the properties: a
+    # literal, its negation and a copy of the variable involve none)
+    for _ in range(ctx.n(20, 200)):
+        v = ctx.rng.choice([2 ** 63, 2 ** 63 + ctx.rng.randrange(1, 1000), 2 ** 64 + 1, 2 ** 70 + 12345, 10 ** 30])
+        neg = ctx.rng.random() < 0.4
+        text = "name b\nversion 1.0\n\nint v_ = %s%d\nint w_ = v_\nG(v_, k=w_) | 0\n" % ("-" if neg else "", v)
+        want = -v if neg else v
+        ctx.count("integer-scalar-beyond-64-bits")
+        ctx.case(text, nontrivial=True)
+        texts.append(text)
+        r = core.impl_loads(text)
+        msg = None
+        if r[0] != "ok":
+            msg = "refused: %r" % (r[1],)
+        else:
+            got = (r[1].variables.get("v_"), r[1].variables.get("w_"), r[1].operations[0]["args"][0], r[1].operations[0]["kwargs"]["k"])
+            if any(isinstance(g, bool) or not isinstance(g, int) or g != want for g in got):
+                msg = "int v_ = %d is held / delivered as %r" % (want, got)
+        if msg:
+            ctx.violation("declaration: " + msg, {"kind": "loads_ok", "text": text})
+    common.loads_corr(ctx, texts[-ctx.n(20, 200):], "LOADS(big int)")
+    # interaction stream (harness/interact.py): the executable model is the oracle
+    common.interaction_stream(ctx, ctx.n(200, 2500))
